@@ -431,6 +431,44 @@ class TU:
         return cache[name]
 
 
+def _family(self, name):
+    """the function together with the helpers split off from it that could not be inlined (early returns, loops):
+    a copy of the function whose body is followed by the helpers' bodies. For rules that ask whether a statement
+    exists anywhere in the code of `name` - never for path or order rules. On a tree without such helpers this is
+    func(name) itself."""
+    from . import normal
+    fn = self.func(name)
+    try:
+        extra = [f_ for f_ in normal.with_new_helpers(self, name) if f_['name'] != name]
+    except Exception:
+        extra = []
+    # helpers that func() already inlined are no longer called from the inlined body
+    called = {callee_name(e) for e in walk(body(fn)) if e.get('kind') == 'CallExpr'}
+    todo, keep = list(called), []
+    byname = {f_['name']: f_ for f_ in extra}
+    seen = set()
+    while todo:
+        c = todo.pop()
+        if c in byname and c not in seen:
+            seen.add(c)
+            keep.append(byname[c])
+            todo += [callee_name(e) for e in walk(body(byname[c])) if e.get('kind') == 'CallExpr']
+    if not keep:
+        return fn
+    out = dict(fn)
+    inner = []
+    for c in fn.get('inner', []):
+        if c.get('kind') == 'CompoundStmt':
+            c = dict(c)
+            c['inner'] = list(c.get('inner', [])) + [body(h) for h in keep]
+        inner.append(c)
+    out['inner'] = inner
+    return out
+
+
+TU.family = _family
+
+
 def _fold_int(c):
     for x in c.get('inner', []):
         if x.get('kind') == 'IntegerLiteral':
